@@ -8,7 +8,8 @@
 //   pair : (key, original index) + the id of the thread that assigned the slot last and a per-slot assignment
 //          counter: gives the write footprint of the merge phase (one writer per position, contiguous windows; writers are
 //          compared with each other only - which OS thread runs which worker is not observed)
-//   trk  : (key, original index) where the key lives in a heap block owned by the element and every
+//   trk  : (moves poison their source with a MOVED sentinel key; looking at such a key is an error token in the line)
+//          (key, original index) where the key lives in a heap block owned by the element and every
 //          construction / destruction is entered in a thread-safe ledger (live-instance counter)
 // Stable sorts print the arrangement as it is; unstable sorts print the key sequence as it is and the indices
 // after canonicalisation (positions of equal keys sorted by index), since the property leaves their order open.
@@ -55,7 +56,8 @@ struct MtLedger {
     long errors = 0;
     std::string first_error;
     void err(const char* what, const void* p) {
-        if (!errors++) { char b[128]; snprintf(b, sizeof b, "%s @%p", what, p); first_error = b; }
+        ++errors;
+        if (first_error.empty()) { char b[160]; snprintf(b, sizeof b, "%s@%p", what, p); first_error = b; }
     }
     static MtLedger& get() { static MtLedger l; return l; }
 };
@@ -75,6 +77,16 @@ struct Trk {
     Trk(int k, int i) : heap(new int(k)), idx(i) { reg(); }
     Trk(const Trk& o) : heap(nullptr), idx(o.idx) { chk(o); heap = new int(*o.heap); reg(); }
     Trk& operator=(const Trk& o) { chk(o); chk(*this); *heap = *o.heap; idx = o.idx; return *this; }
+    // real move operations that poison the source: a moved-from element keeps a valid heap block holding the MOVED
+    // sentinel, so that any later look at its key (a comparator call, a sample drawn from it, its presence in the
+    // result) is reported instead of going unnoticed
+    static constexpr int MOVED = -777777;
+    Trk(Trk&& o) noexcept : heap(nullptr), idx(o.idx) { chk(o); heap = new int(*o.heap); *o.heap = MOVED; o.idx = -9; reg(); }
+    Trk& operator=(Trk&& o) noexcept {
+        chk(o); chk(*this);
+        if (this != &o) { *heap = *o.heap; idx = o.idx; *o.heap = MOVED; o.idx = -9; }
+        return *this;
+    }
     ~Trk() {
         auto& L = MtLedger::get();
         {
@@ -83,7 +95,14 @@ struct Trk {
         }
         delete heap; heap = nullptr;
     }
-    int key() const { chk(*this); return *heap; }
+    int key() const {
+        chk(*this);
+        if (*heap == MOVED) {
+            auto& L = MtLedger::get(); std::lock_guard<std::mutex> g(L.m);
+            L.err("comparator-called-on-a-moved-from-element(or-a-copy-of-one)", this);
+        }
+        return *heap;
+    }
     // natural order (ascending key); the sorts under test must use the comparator they are given, never this one
     friend bool operator<(const Trk& a, const Trk& b) { return a.key() < b.key(); }
 };
